@@ -101,10 +101,10 @@ CHECKS = {
                 note="Trusted: process-death model (kernel-held data survives, user-space buffers do not; no power-loss reordering); audit events enumerate the mutations (pure-Python stores)."),
     "C05": dict(level="exploration", design="DESIGN.md section 4 C05",
                 technique="runtime monitoring under controlled scheduling: CHESS-style deterministic thread scheduler (audit-event and line-event yield points) enumerates all single (thorough: double) pre-emption interleavings of pairs of real store operations; each run is judged against the sequential executions of the same operations; thorough adds an HTTP stress run with delay injection",
-                text="Decided on every enumerated interleaving: eleven recorded known findings describe where the property does NOT hold (check-before-lock on tree-git; unlocked "
-                     "read-modify-write and unmapped dulwich exceptions on bare-git). Everything else held on all schedules: on tree-git an update to a different resource was never "
-                     "lost, LockedError was the only refusal besides the documented ones, index and HEAD agreed, no schedule corrupted a repository or made history non-linear, and "
-                     "every other result/final-state pair equalled a sequential execution.",
+                text="Decided on every enumerated interleaving: fourteen recorded known findings describe where the property does NOT hold (check-before-lock on tree-git; unlocked "
+                     "read-modify-write and unmapped dulwich exceptions on bare-git; dulwich's lock-release race, which needs two pre-emptions). Everything else held on all schedules: "
+                     "with one pre-emption tree-git never lost an update to a different resource, LockedError was the only refusal besides the documented ones, index and HEAD "
+                     "agreed, no single-pre-emption schedule corrupted a repository or made history non-linear, and every other result/final-state pair equalled a sequential execution.",
                 note="Trusted: pre-emption only at the instrumented yield points; at most two pre-emptions; sequential runs of the real code as specification."),
 }
 NOT_APPLICABLE = {}
